@@ -78,7 +78,7 @@ type rset struct {
 	Opt   opts
 }
 
-var segs = []string{"a", "b", "ab", "a-b", "a_b", "A", "v1", ":id", ":name", "user", "users", "x.y", "a-b", "a_b", "id", "user_id", "user-id"}
+var segs = []string{"a", "b", "ab", "a-b", "a_b", "A", "Ping", "User_id", "v1", ":id", ":name", "user", "users", "x.y", "a-b", "a_b", "id", "user_id", "user-id"}
 var verbs = []string{"GET", "POST", "PUT", "DELETE", "PATCH", "HEAD", "OPTIONS", "Any"}
 
 func genSet(r *mon.Rand) rset {
@@ -121,7 +121,27 @@ func genSet(r *mon.Rand) rset {
 		if r.Chance(4) {
 			name = r.Str("GetUser", "Get_user", "List", "Create") + fmt.Sprint(len(s.Decls))
 		}
+		if r.Chance(8) {
+			// a handler called like a path segment (its middleware name then looks like a
+			// group's)
+			if sg := segs[r.Intn(len(segs))]; identRe.MatchString(sg) && !usedName(s.Decls, sg) {
+				name = sg
+			}
+		}
 		s.Decls = append(s.Decls, decl{v, p, name})
+		if r.Chance(8) && v != "Any" {
+			// one IDL function with two HTTP annotations: the same handler on a second verb
+			// (api.get="/item", api.post="/item") or on a second path
+			v2, p2 := verbs[r.Intn(len(verbs)-1)], p
+			if r.Chance(3) {
+				p2 = "/" + segs[r.Intn(len(segs))] + "/alias" + fmt.Sprint(len(s.Decls))
+			}
+			if !(seen[v2+" "+p2] || seen["Any "+p2]) {
+				seen[v2+" "+p2] = true
+				paths = append(paths, p2)
+				s.Decls = append(s.Decls, decl{v2, p2, name})
+			}
+		}
 	}
 	if n >= 2 && r.Chance(3) {
 		s.Opt.Update = 1 + r.Intn(n-1)
@@ -149,6 +169,17 @@ func genSet(r *mon.Rand) rset {
 		s.Opt.Snake = false
 	}
 	return s
+}
+
+var identRe = regexp.MustCompile(`^[A-Z][A-Za-z0-9_]*$`) // (exported: the router refers to the handler from another package)
+
+func usedName(ds []decl, n string) bool {
+	for _, d := range ds {
+		if d.Name == n {
+			return true
+		}
+	}
+	return false
 }
 
 func pathUsed(seen map[string]bool, p string) bool {
@@ -287,7 +318,12 @@ func generate(dir string, k int, s rset) (genErr string, parseErr string) {
 	for _, im := range imps {
 		var sb strings.Builder
 		fmt.Fprintf(&sb, "package %s\n\nimport (\n\t\"context\"\n\n\t\"github.com/cloudwego/hertz/pkg/app\"\n)\n\nfunc mk(name string) app.HandlerFunc {\n\treturn func(c context.Context, ctx *app.RequestContext) { ctx.Response.Header.Add(\"X-Trace\", \"H:\"+name) }\n}\n\nvar (\n", filepath.Base(im[2]))
+		done := map[string]bool{}
 		for _, d := range s.Decls {
+			if done[d.Name] {
+				continue
+			}
+			done[d.Name] = true
 			fmt.Fprintf(&sb, "\t%s = mk(%q)\n", d.Name, d.Name)
 		}
 		sb.WriteString(")\n")
